@@ -3,7 +3,7 @@
    lists of thread choices, any number of producers, any flow keys, any channel capacity, sync.Pool
    handing back any channel that was put). *)
 From Coq Require Import List Arith Bool ZArith.
-From Dae Require Import C13_Spec C13_Model C13_Proofs C13_Inv C13_EpModel C13_EpProofs C13_EpTuples C13_EpFine C13_EpFineWit.
+From Dae Require Import C13_Spec C13_Model C13_Proofs C13_Inv C13_EpModel C13_EpProofs C13_EpTuples C13_EpFine C13_EpFineWit C13_TrFine C13_TrFineProofs.
 Import ListNotations.
 
 (* The full statement: for every schedule the history satisfies the spec's safety clause (per flow the
@@ -68,6 +68,25 @@ Theorem C13_tuple_refcount :
     /\ (forall g k, (exists e, ts_tr (trun h) g k = Some e) <-> 0 < owners_after h g k).
 Proof. exact C13_tuple_refcount_proof. Qed.
 Print Assumptions C13_tuple_refcount.
+
+(* Kernel flow entries with CONCURRENT owners (C13_TrFine.v: every owner is a thread; a retain or forget may
+   block while the last owner is between BeginRelease and FinalizeRelease and re-examines the key after every
+   wake-up; the release is three steps with the kernel delete in the middle): for any number of owners, tuples
+   and modes and EVERY schedule, at every reachable state the entry of every tuple counts exactly its live
+   owners (absent when there are none) and no kernel delete was issued while the tuple had an owner. *)
+Theorem C13_tuple_refcount_concurrent :
+  forall (thr : list (nat * nat)) (sched : list nat) (k : nat),
+    let s := tr_run true thr sched in
+    refs_match s k = true /\ deletes_ok s = true.
+Proof. exact C13_tuple_refcount_concurrent_proof. Qed.
+Print Assumptions C13_tuple_refcount_concurrent.
+
+(* The re-check after a wake-up is necessary: a retainer that waits once and then installs a fresh entry
+   loses an owner (two retainers in one deleting window), and the tuple is deleted while an owner remains. *)
+Theorem C13_tuple_wait_once_refuted :
+  exists thr sched, deletes_ok (tr_run false thr sched) = false /\ exists k, refs_match (tr_run false thr sched) k = false.
+Proof. exact C13_tuple_wait_once_refuted_proof. Qed.
+Print Assumptions C13_tuple_wait_once_refuted.
 
 (* ---- endpoint pool (C13_EpModel.v: GetOrCreate, retire, Close, WriteTo, adoptGeneration, health
    invalidation, Reset, janitor sweep, time; one call = one step) ---- *)
